@@ -3,7 +3,7 @@
   result is the source without the subtrees of rejected tags, built from new objects only; the
   destination gains at most one empty FAM record; `DeepCopy`'s walk is the keep-everything case.
 -/
-import Gedcom.Lemmas.CopySeq
+import Gedcom.Lemmas.DocSt
 namespace Gedcom
 
 mutual
@@ -94,7 +94,7 @@ theorem filter_effect (ctx : Option (Nat × Str)) (dst d' : DocSt) (next : Nat)
       (added = [] ↔ roleIds r.copy = []) ∧ added.length ≤ 1 ∧
       ∀ x ∈ added, x.tag = tagFAM ∧ x.value = [] ∧ x.kids = [] ∧ next ≤ x.id ∧ x.id < r.next ∧
         x.id ∉ r.copy.ids) ∧
-    (dst.coherent → d'.coherent) := by
+    (dst.coherent → d'.coherent) ∧ next < r.next := by
   unfold filterIntoDoc at h
   have sp := filterTree_spec keep next t
   split at h
@@ -108,7 +108,7 @@ theorem filter_effect (ctx : Option (Nat × Str)) (dst d' : DocSt) (next : Nat)
       injection h with h1 h2
       injection h1 with h1
       subst h1 h2
-      refine ⟨s1, s3, s4, rfl, ⟨[], by simp, rfl, ?_, by simp, by simp⟩, fun hc => hc⟩
+      refine ⟨s1, s3, s4, rfl, ⟨[], by simp, rfl, ?_, by simp, by simp⟩, fun hc => hc, s2⟩
       simp only [true_iff]
       exact List.isEmpty_iff.mp hr
     · rename_i hr
@@ -122,7 +122,7 @@ theorem filter_effect (ctx : Option (Nat × Str)) (dst d' : DocSt) (next : Nat)
         have hn : (newFams nx [p]) = ([.mk nx tagFAM [] p []], nx + 1) := rfl
         rw [hn] at a1 a2
         simp only at a1 a2
-        refine ⟨s1, ?_, ?_, rfl, ⟨[.mk nx tagFAM [] p []], a1, rfl, ?_, by simp, ?_⟩, ?_⟩
+        refine ⟨s1, ?_, ?_, rfl, ⟨[.mk nx tagFAM [] p []], a1, rfl, ?_, by simp, ?_⟩, ?_, by simp only [a2]; omega⟩
         · intro i hi; have := s3 i hi; simp only [a2]; omega
         · intro i hi; have := s4 i hi; simp only [a2]; omega
         · constructor
@@ -160,5 +160,15 @@ theorem filter_nil (ctx : Option (Nat × Str)) (dst d' : DocSt) (next : Nat)
   · split at h
     · cases h
     · split at h <;> cases h
+
+mutual
+theorem pruneNode_all (t : Node) : pruneNode (fun _ => true) t = some t := by
+  match t with
+  | .mk tg v p ks => simp only [pruneNode, if_true, pruneList_all]
+theorem pruneList_all (ks : List Node) : pruneList (fun _ => true) ks = ks := by
+  match ks with
+  | [] => rfl
+  | k :: ks => simp only [pruneList, pruneNode_all, pruneList_all]
+end
 
 end Gedcom
